@@ -1,6 +1,7 @@
 import TinyVerif.Gen.SqeCtors
 import TinyVerif.Model.UringAbi
 import TinyVerif.Model.UringRes
+import TinyVerif.Model.Ring
 import TinyVerif.Drv.Common
 open TinyVerif TinyVerif.Sqe
 
@@ -31,8 +32,72 @@ def showEv : UringRes.Ev → String
   | .S => "S" | .M i l o => s!"M{i}:{l}:{o}" | .ME l o => s!"ME:{l}:{o}" | .bar => "|"
   | .U i l => s!"U{i}:{l}" | .C => "C"
 
+/-! ### `kring`: the kernel contract composed with the ring model (Model/Ring.lean, `krun` with `nopKern`)
+
+`kring <flags> <sqk> <cqk> <c> <cc> : <op> : <op> ...` — ops: `g <ud> <sqe-flags> <len>` get+fill, `f` flush,
+`r` reap, `w` wake-if-needed, `k <n>` consume one batch, `x <i>` complete the i-th in-flight request,
+`o <n>` flush the overflow list, `i` SQ thread goes idle. -/
+
+def splitOps : List String → List String → List (List String) → List (List String)
+  | [], cur, acc => (cur.reverse :: acc).reverse
+  | ":" :: rest, cur, acc => splitOps rest [] (cur.reverse :: acc)
+  | t :: rest, cur, acc => splitOps rest (t :: cur) acc
+
+def parseKOp : List String → Option Ring.KOp
+  | ["g", ud, fl, len] => do
+      let ud ← ud.toNat?; let fl ← fl.toNat?; let len ← len.toNat?
+      if ud < Ring.U64 ∧ fl < 256 ∧ len < Ring.W then pure (.get (Ring.sqeWord ud fl len)) else none
+  | ["f"] => some .flush
+  | ["r"] => some .reap
+  | ["w"] => some .wake
+  | ["k", n] => do let n ← n.toNat?; if n < Ring.W then pure (.consume n) else none
+  | ["x", i] => do let i ← i.toNat?; if i < Ring.W then pure (.complete i) else none
+  | ["o", n] => do let n ← n.toNat?; if n < Ring.W then pure (.flushOvf n) else none
+  | ["i"] => some .idle
+  | _ => none
+
+def parseKOps : List (List String) → Option (List Ring.KOp)
+  | [] => some []
+  | o :: os => do let a ← parseKOp o; let r ← parseKOps os; pure (a :: r)
+
+def showReq (r : Ring.Req) : String :=
+  let v := r.ent.val
+  let dep := match r.dep with | none => "-" | some m => toString m
+  s!"{r.seq}@{r.ent.slot}={v % Ring.U64}/{v / Ring.U64 % 256}/{v / Ring.U64 / 256 % Ring.W}/{dep}"
+
+def showKOut : Ring.KOut → String
+  | .app (.slot i) => s!"s{i}"
+  | .app .noSlot => "sn"
+  | .app (.flushed n) => s!"f{n}"
+  | .app (.cqe v) => s!"c{Ring.cqeUd v}:{Ring.cqeRes v}"
+  | .app .noCqe => "cn"
+  | .app .panic => "panic"
+  | .app (.consumed _) => "bad-out"
+  | .app (.posted _) => "bad-out"
+  | .consumed [] => "k:-"
+  | .consumed rs => "k:" ++ ",".intercalate (rs.map showReq)
+  | .noReq => "xn"
+  | .notReady => "xw"
+  | .completed q w d => s!"x{q}={Ring.cqeUd w}:{Ring.cqeRes w}:" ++ (if d then "d" else "o")
+  | .flushedOvf n => s!"o{n}"
+  | .wake b => if b then "w1" else "w0"
+  | .idle => "i"
+
+def runKring (toks : List String) : String :=
+  match splitOps toks [] [] with
+  | ["kring", fl, sqk, cqk, c, cc] :: ops =>
+    match fl.toNat?, sqk.toNat?, cqk.toNat?, c.toNat?, cc.toNat?, parseKOps ops with
+    | some fl, some sqk, some cqk, some c, some cc, some ops =>
+      if fl % 2 = 0 ∧ fl / 4 % 256 = 0 ∧ fl / 4096 = 0 ∧ sqk ≤ 10 ∧ cqk ≤ 10 ∧ c < Ring.W ∧ cc < Ring.W then
+        let outs := (Ring.krun Ring.nopKern .fixed (Ring.kinit fl sqk cqk c cc) ops).2
+        if outs.isEmpty then "ok" else " ".intercalate (outs.map showKOut)
+      else "bad-op"
+    | _, _, _, _, _, _ => "bad-op"
+  | _ => "bad-op"
+
 def step' (_ : Unit) (line : String) : Unit × String :=
   match Drv.words line with
+  | "kring" :: rest => ((), runKring ("kring" :: rest))
   | "sqe" :: "new_connect_unix" :: rest =>
     -- operands on the line: socket, path length, user_data, sqe_flags; the SocketArgUnix is built by the
     -- harness: addr_len = path length + NUL + sizeof(sa_family_t), pointer canonicalised to 0xA11CE0
